@@ -5,6 +5,8 @@ import ast
 import inspect
 import textwrap
 
+import numpy as np
+
 from pyvc.api import *
 from pyvc import symtorch as st, expr as E
 
@@ -293,5 +295,237 @@ def task_settings_dict(ctx):
     ctx.undecided_clause("bitwise repeatability and independence of the intra-op thread count (no contract reaches the BLAS scheduler)")
 
 
-TASKS_QUICK = ["autograd_functions", "caches", "mutable_defaults", "settings_dict"]
+# ---------------------------------------------------------------------------
+# O1: a driver object that is reused for a second job gives the second job the result a fresh driver gives
+
+
+def _same(a, b, path, out, seen=None):
+    """structural identity of two values built from symbolic tensors; appends the paths that differ to `out`."""
+    import torch as rt
+
+    seen = seen if seen is not None else set()
+    key = (id(a), id(b))
+    if key in seen:
+        return
+    seen.add(key)
+    if isinstance(a, st.T) or isinstance(b, st.T):
+        if not (isinstance(a, st.T) and isinstance(b, st.T)) or a.a.shape != b.a.shape:
+            out.append(path + " (shape/type)")
+            return
+        for pos in np.ndindex(*a.a.shape):
+            x, y = a.a[pos], b.a[pos]
+            nx, ny = (x.n if isinstance(x, Sym) else x), (y.n if isinstance(y, Sym) else y)
+            if isinstance(nx, E.Node) or isinstance(ny, E.Node):
+                if E.node_of(x) is not E.node_of(y):
+                    out.append("%s%s: %s  vs  %s" % (path, list(pos), E.to_str(E.node_of(x), 80), E.to_str(E.node_of(y), 80)))
+                    return
+            elif nx != ny:
+                out.append("%s%s: %r vs %r" % (path, list(pos), nx, ny))
+                return
+        return
+    if isinstance(a, (tuple, list)) and isinstance(b, (tuple, list)):
+        if len(a) != len(b):
+            out.append(path + " (length)")
+            return
+        for k, (x, y) in enumerate(zip(a, b)):
+            _same(x, y, "%s[%d]" % (path, k), out, seen)
+        return
+    if isinstance(a, dict) and isinstance(b, dict):
+        if set(a) != set(b):
+            out.append(path + " (keys %r)" % sorted(set(map(str, a)) ^ set(map(str, b))))
+            return
+        for k in a:
+            _same(a[k], b[k], "%s[%r]" % (path, k), out, seen)
+        return
+    if isinstance(a, Sym) or isinstance(b, Sym):
+        if E.node_of(a) is not E.node_of(b):
+            out.append(path)
+        return
+    if isinstance(a, rt.Tensor) and isinstance(b, rt.Tensor):
+        if a.shape != b.shape or not bool((a == b).all()):
+            out.append(path)
+        return
+    if callable(a) and callable(b):
+        return
+    if hasattr(a, "__dict__") and hasattr(b, "__dict__") and type(a) is type(b) and not isinstance(a, type):
+        _same({k: v for k, v in vars(a).items() if not k.startswith("__")}, {k: v for k, v in vars(b).items() if not k.startswith("__")}, path, out, seen)
+        return
+    try:
+        if a != b:
+            out.append(path)
+    except Exception:  # noqa
+        pass
+
+
+def replay_driver_reuse(model):
+    """real code: acetylene on a driver (and settings dict) that first computed formaldehyde, against a fresh driver."""
+    import torch
+    from seqm.seqm_functions.constants import Constants
+    from seqm.Molecule import Molecule
+    from seqm.ElectronicStructure import Electronic_Structure
+
+    torch.set_default_dtype(torch.float64)
+
+    def base():
+        return {"method": "AM1", "scf_eps": 1e-9, "scf_converger": [1], "sp2": [False, 1e-5], "elements": [0, 1, 6, 8], "learned": [], "pair_outer_cutoff": 1e10, "eig": True}
+
+    h2co = (torch.tensor([[8, 6, 1, 1]]), torch.tensor([[[0.0, 0, 0], [1.22, 0, 0], [1.82, 0.94, 0], [1.82, -0.94, 0]]]))
+    c2h2 = (torch.tensor([[6, 6, 1, 1]]), torch.tensor([[[0.0, 0, 0], [1.20, 0, 0], [-1.06, 0, 0], [2.26, 0, 0]]]))
+
+    def run(es, params, sp, xyz):
+        mol = Molecule(Constants(), params, xyz.clone(), sp)
+        es(mol)
+        return {"Etot": float(mol.Etot[0]), "Enuc": float(mol.Enuc[0]), "Eelec": float(mol.Eelec[0]), "Hf": float(mol.Hf[0]), "force": mol.force.detach().clone(), "q": mol.q.detach().clone()}
+
+    p0 = base()
+    fresh = run(Electronic_Structure(p0), p0, *c2h2)
+    p1 = base()
+    es = Electronic_Structure(p1)
+    run(es, p1, *h2co)
+    reused = run(es, p1, *c2h2)
+    diffs = {k: (float((fresh[k] - reused[k]).abs().max()) if hasattr(fresh[k], "abs") else abs(fresh[k] - reused[k])) for k in fresh}
+    return {"reproduced": bool(max(diffs.values()) > 1e-8), "history": "Electronic_Structure driver: CH2O then C2H2, against C2H2 on a fresh driver", "max_abs_differences": diffs}
+
+
+def task_driver_reuse(ctx):
+    """O1 (two-run contract): for the real Energy.forward, Force.forward and Electronic_Structure.forward, running job B on a
+    driver object that has already run job A (same shapes, different values) passes the same arguments to every callee,
+    returns the same tuple and publishes the same molecule attributes as running B on a fresh driver."""
+    import seqm.basics as B
+    import seqm.ElectronicStructure as ES
+    import torch as rt
+    from contracts import C14_observables as C14
+    from contracts.es_common import ghost_es_molecule, BAS
+
+    fE = ctx.under_contract(BAS + ":Energy.forward", stubs=["hamiltonian", "_prepare_molecule_inputs", "pair_nuclear_energy", "elec_energy", "calc_ground_dipole", "MO matching"])
+    fF = ctx.under_contract(BAS + ":Force.forward", stubs=["energy"])
+    fS = ctx.under_contract("seqm.ElectronicStructure:Electronic_Structure.forward", stubs=["conservative_force"])
+    for t in (BAS + ":Energy._build_parnuc", BAS + ":Energy.__init__", BAS + ":Force.__init__", "seqm.ElectronicStructure:Electronic_Structure.__init__"):
+        ctx.under_contract(t)
+    rec = []
+
+    def tag_of(molecule):
+        return molecule.tag
+
+    def sym(molecule, shape, name):
+        return st.symbolic(shape, "%s_%s" % (tag_of(molecule), name))
+
+    CUR = {}
+
+    def pne(Z, const, nmol, ni, nj, idxi, idxj, rij, rho0xi, rho0xj, alp, chi, gam=None, method="AM1", parameters=None):
+        rec.append(("pair_nuclear_energy", dict(Z=Z, ni=ni, nj=nj, idxi=idxi, idxj=idxj, rij=rij, rho0xi=rho0xi, rho0xj=rho0xj, alp=alp, chi=chi, gam=gam, method=method, parameters=parameters)))
+        return sym(CUR["mol"], (len(ni),), "EnucAB")
+
+    def ee(Pm, F, Hcore, doTriu=True):
+        rec.append(("elec_energy", dict(P=Pm, F=F, Hcore=Hcore)))
+        return sym(CUR["mol"], (Pm.shape[0],), "Eelec")
+
+    def dip(molecule, Pm):
+        rec.append(("calc_ground_dipole", dict(P=Pm, x=molecule.coordinates)))
+        molecule.dipole = sym(molecule, (2, 3), "dip")
+
+    stubs = dict(C14.energy_stubs({}))
+    stubs.update({BAS + ":pair_nuclear_energy": pne, BAS + ":elec_energy": ee, BAS + ":calc_ground_dipole": dip})
+
+    def make_mol(tag):
+        mol = ghost_es_molecule(prefix=tag + "_")
+        mol.tag = tag
+        C14._const_tables(mol)
+        return mol
+
+    def ham(molecule, method, P0=None):
+        rec.append(("hamiltonian", dict(method=method, P0=P0, x=molecule.coordinates)))
+        n = 4 * molecule.molsize
+        t = molecule.tag
+        nc = st.T(np.array([boolean(t + "_nc0"), boolean(t + "_nc1")], dtype=object), st.bool, True)
+        return (sym(molecule, (2, n, n), "F"), sym(molecule, (2, n), "e"), sym(molecule, (2, n, n), "P"), sym(molecule, (2, n, n), "Hc"), sym(molecule, (len(molecule.pairs), 10, 10), "w"),
+                sym(molecule, (2, molecule.molsize), "chg"), sym(molecule, (len(molecule.pairs),), "rho0xi"), sym(molecule, (len(molecule.pairs),), "rho0xj"), None, None, nc,
+                sym(molecule, (2, n, n), "C"))
+
+    def grad_stub(**kw):
+        rec.append(("scf_analytic_grad", {k: v for k, v in kw.items() if k not in ("molecule", "const")}))
+        return sym(kw["molecule"], (2, 2, 3), "grad")
+
+    stubs.update({BAS + ":Parser": lambda p: None, BAS + ":Pack_Parameters": lambda p: None, BAS + ":Hamiltonian": lambda p: ham, BAS + ":scf_analytic_grad": grad_stub,
+                  "seqm.ElectronicStructure:ForceXL": lambda p: None})
+
+    def settings():
+        return {"method": "AM1", "scf_eps": 1e-6, "analytical_gradient": [True]}
+
+    # drivers are built by their real constructors (callee classes replaced by the recorders above)
+    def make_energy():
+        return B.Energy(settings())
+
+    def call_energy(en, mol):
+        CUR["mol"] = mol
+        return en(mol, {}, all_terms=True)
+
+    def make_force():
+        return B.Force(settings())
+
+    def call_force(fo, mol):
+        CUR["mol"] = mol
+        return fo(mol)
+
+    def make_es():
+        return ES.Electronic_Structure(settings())
+
+    def call_es(es, mol):
+        CUR["mol"] = mol
+        es(mol, P0=None)
+        return None
+
+    for label, mk, call in (("Energy.forward", make_energy, call_energy), ("Force.forward", make_force, call_force), ("Electronic_Structure.forward", make_es, call_es)):
+        def thunk():
+            d1 = mk()
+            before = {k: id(v) for k, v in vars(d1).items()}
+            call(d1, make_mol("a"))
+            changed = sorted(k for k, v in vars(d1).items() if before.get(k) != id(v))
+            del rec[:]
+            mB1 = make_mol("b")
+            out1 = call(d1, mB1)
+            rec1 = list(rec)
+            del rec[:]
+            d2 = mk()
+            mB2 = make_mol("b")
+            out2 = call(d2, mB2)
+            rec2 = list(rec)
+            del rec[:]
+            return out1, out2, rec1, rec2, mB1, mB2, changed
+
+        ex = ctx.explore(thunk, stubs=stubs, name="reuse:" + label)
+        if len(ex.paths) != 1 or ex.paths[0].raised is not None:
+            ctx.error(label + ".paths", "expected one path: %r %s" % ([p.raised for p in ex.paths], ex.paths[0].notes.get("traceback", "")[-800:] if ex.paths else ""))
+            continue
+        out1, out2, rec1, rec2, mB1, mB2, changed = ex.paths[0].value
+        if len(rec1) == 0:
+            ctx.error(label + ".vacuous", "no callee was reached")
+        diffs = []
+        if [r[0] for r in rec1] != [r[0] for r in rec2]:
+            diffs.append("callee sequence %r vs %r" % ([r[0] for r in rec1], [r[0] for r in rec2]))
+        else:
+            for k, ((n1, a1), (n2, a2)) in enumerate(zip(rec1, rec2)):
+                _same(a1, a2, "%s#%d" % (n1, k), diffs)
+        name = label + ".second-job-on-a-used-driver.callees-receive-the-arguments-a-fresh-driver-passes"
+        if diffs:
+            ctx.fail(name, "arguments that differ (used driver vs fresh driver): " + "; ".join(diffs[:4]), replay=_quiet(replay_driver_reuse), witness_class="driver-object-carries-state-between-jobs")
+        else:
+            ctx.ok(name, "two-run-structural-identity", detail="%d callee calls compared; driver attributes rebound by a call: %r" % (len(rec1), changed))
+        diffs = []
+        _same(out1, out2, "result", diffs)
+        name = label + ".second-job-on-a-used-driver.returns-what-a-fresh-driver-returns"
+        (ctx.fail(name, "; ".join(diffs[:4]), replay=_quiet(replay_driver_reuse), witness_class="driver-object-carries-state-between-jobs") if diffs else ctx.ok(name, "two-run-structural-identity"))
+        diffs = []
+        skip = {"tag", "const"}
+        _same({k: v for k, v in vars(mB1).items() if k not in skip}, {k: v for k, v in vars(mB2).items() if k not in skip}, "molecule", diffs)
+        name = label + ".second-job-on-a-used-driver.publishes-what-a-fresh-driver-publishes"
+        (ctx.fail(name, "; ".join(diffs[:4]), replay=_quiet(replay_driver_reuse), witness_class="driver-object-carries-state-between-jobs") if diffs else ctx.ok(name, "two-run-structural-identity"))
+    # canary: the comparison does notice a value taken from job A
+    d = []
+    _same(st.symbolic((2,), "a_alpha"), st.symbolic((2,), "b_alpha"), "canary", d)
+    (ctx.ok if d else ctx.error)("canary.two-run-comparison-distinguishes-jobs", "two-run-structural-identity" if d else "comparison is vacuous")
+    ctx.assume_note("two jobs of the same shapes (batch [OH, HH]) and different symbolic values; callees (hamiltonian, pair_nuclear_energy, elec_energy, dipole) are recorders returning job-tagged symbols")
+
+
+TASKS_QUICK = ["autograd_functions", "caches", "mutable_defaults", "settings_dict", "driver_reuse"]
 TASKS_THOROUGH = TASKS_QUICK
